@@ -44,7 +44,8 @@ def make_backend(cfg: dict):
         re_expression="[re {field} /{regex}/{flag_i}{flag_m}{flag_s}]", not_re_expression="[nre {field} /{regex}/{flag_i}{flag_m}{flag_s}]",
         re_escape_char="\\", re_escape=("/",), re_escape_escape_char=True, re_flag_prefix=False,
         re_flags={SigmaRegularExpressionFlag.IGNORECASE: "i", SigmaRegularExpressionFlag.MULTILINE: "m", SigmaRegularExpressionFlag.DOTALL: "s"},
-        case_sensitive_match_expression="[ceq {field} {value}]" if cased != "none" else None,
+        # casedRegex: the target has no case-sensitive string operator, the value is rendered as a regular expression (`{regex}`)
+        case_sensitive_match_expression=("[cre {field} /{regex}/]" if cfg.get("casedRegex") else "[ceq {field} {value}]") if cased != "none" else None,
         case_sensitive_startswith_expression="[csw {field} {value}]" if cased == "all" else None,
         case_sensitive_not_startswith_expression="[ncsw {field} {value}]" if cased == "all" else None,
         case_sensitive_startswith_expression_allow_special=cfg.get("swSpecial", False),
@@ -86,7 +87,8 @@ class Tokenize(Exception):
 
 def _read_quoted(s, i, q):
     """s[i] == q; returns (decoded raw chars list with escape info, next index) — list of (char, escaped)"""
-    assert s[i] == q
+    if s[i:i + 1] != q:
+        raise Tokenize(f"expected {q} at {i}: {s[i:i + 30]!r}")
     i += 1
     out = []
     while True:
@@ -166,6 +168,9 @@ def parse_atom(body: str):
         elif op == "ew": pat = ["*"] + pat
         elif op == "ct": pat = ["*"] + pat + ["*"]
         return [wrap(_atom_str(f, cased, pat))]
+    if base == "cre":          # a string value rendered as regular expression: read back into the pattern it denotes
+        src, rest = _regex_at(body, i)
+        return [wrap(_atom_str(f, True, _pat_of_regex(src)))]
     if base == "re":
         src, flags = _regex_at(body, i)
         return [wrap({"k": "re", "f": f, "src": cps(src), "i": "i" in flags, "m": "m" in flags, "s": "s" in flags})]
@@ -209,6 +214,31 @@ def parse_atom(body: str):
     raise Tokenize(f"unknown atom kind {kind}")
 
 
+REGEX_OPERATORS = ".*+?^$[](){}|\\"
+
+
+def _pat_of_regex(src):
+    """the pattern a regular expression made from a plain string value denotes: `\\c` = the character c, `.*` / `.` = the wildcards,
+    any other character = itself; an operator character that is not escaped would not be matched literally by the target: rejected"""
+    out, i = [], 0
+    while i < len(src):
+        c = src[i]
+        if c == "\\":
+            if i + 1 >= len(src):
+                raise Tokenize("dangling escape in regex")
+            out.append(ord(src[i + 1])); i += 2
+        elif c == ".":
+            if src[i + 1:i + 2] == "*":
+                out.append("*"); i += 2
+            else:
+                out.append("?"); i += 1
+        elif c in REGEX_OPERATORS:
+            raise Tokenize(f"regex operator {c!r} not escaped in a literal string value: /{src}/")
+        else:
+            out.append(ord(c)); i += 1
+    return out
+
+
 def _regex_at(body, i):
     if body[i] != "/":
         raise Tokenize("regex start")
@@ -248,6 +278,13 @@ def _find_atom_end(s, i):
 
 
 def tokenize(q: str, kinds: bool = False):
+    try:
+        return _tokenize(q, kinds)
+    except (IndexError, AssertionError, ValueError, AttributeError) as e:      # text the grammar has no reading for
+        raise Tokenize(f"malformed query text ({type(e).__name__}: {e})") from None
+
+
+def _tokenize(q: str, kinds: bool = False):
     """kinds=True: every atom / in-list token additionally carries "t": the raw template kind it was rendered
     with (`eq`, `nsw`, `wm`, `in` …; `eqtok` for `field==value`, `ts` for timestamp parts) — used by the C01 drift
     comparison to tell which template family a leaf went through; ignored by the Lean driver."""
